@@ -8,6 +8,7 @@
 #include <memory>
 #include <new>
 #include <type_traits>
+#include <utility>
 
 namespace vh
 {
@@ -15,9 +16,10 @@ namespace vh
   // Allocator configuration: a *type* (a non-type template parameter would defeat
   // allocator_traits' default rebind).
   template <bool Pocca, bool Pocma, bool Pocs, bool AlwaysEqual,
-            typename SizeT = std::size_t, unsigned long MaxSize = 0>
+            typename SizeT = std::size_t, unsigned long MaxSize = 0, bool Construct = false>
   struct ACfg
   {
+    static const bool construct = Construct;   // provide construct () / destroy () members
     static const bool pocca = Pocca;
     static const bool pocma = Pocma;
     static const bool pocs  = Pocs;
@@ -26,8 +28,33 @@ namespace vh
     static const unsigned long max_size = MaxSize;   // 0: derive from size_type
   };
 
+  // construct () / destroy () members (optional): their presence forces small_vector onto
+  // allocator_traits::construct and disables the byte-copy shortcuts; calls are counted.
+  struct ConstructCounters { unsigned long long constructs, destroys; ConstructCounters () : constructs (0), destroys (0) { } };
+  inline ConstructCounters& construct_counters () { static ConstructCounters c; return c; }
+
+  template <typename T, bool Enabled>
+  struct ConstructMixin { };
+
+  template <typename T>
+  struct ConstructMixin<T, true>
+  {
+    template <typename U, typename ...Args>
+    void construct (U *p, Args&&... args)
+    {
+      ::new (const_cast<void *> (static_cast<const volatile void *> (p))) U (std::forward<Args> (args)...);
+      ++construct_counters ().constructs;
+    }
+    template <typename U>
+    void destroy (U *p) noexcept
+    {
+      p->~U ();
+      ++construct_counters ().destroys;
+    }
+  };
+
   template <typename T, typename C>
-  class TrackAlloc
+  class TrackAlloc : public ConstructMixin<T, C::construct>
   {
   public:
     typedef T                         value_type;
@@ -131,6 +158,7 @@ namespace vh
     static const bool pocca = false, pocma = true, pocs = false;   // std::allocator: POCMA is true_type
     static const bool ae = true;
     static const bool is_std = true;
+    static const bool has_construct = false;
     static A    make (int) { return A (); }
     static int  id (const A&) { return 0; }
     static const char *name () { return "std"; }
@@ -143,6 +171,7 @@ namespace vh
     static const bool pocca = C::pocca, pocma = C::pocma, pocs = C::pocs;
     static const bool ae = C::ae;
     static const bool is_std = false;
+    static const bool has_construct = C::construct;
     static TrackAlloc<T, C> make (int i) { return TrackAlloc<T, C> (i); }
     static int id (const TrackAlloc<T, C>& a) { return a.id; }
     static const char *name () { return "track"; }
